@@ -5,6 +5,14 @@
 
   A buffer is `(buf, pos)` with `buf.length = b` (block size).  The per-block closure
   `f : σ → List (BitVec 8) → σ` threads the hash's own state `σ`.
+
+  Checked line by line against block-buffer-0.9.0/src/lib.rs and block-padding-0.2.1/src/lib.rs.
+  Scope: states with `buf.length = b`, `0 < b` and `pos ≤ b` (`pos < b` for `input_block` users).
+  These invariants are preserved by every operation (`inputBlock_wf`, `inputLazy_wf`,
+  `len64PaddingBe_spec`, … in CC/Buffer/Lemmas.lean), so the states in which the Rust would panic
+  (slice index out of range for `pos > b`, `chunks_exact(0)`, `len64_padding_be` with `b < 8`) are
+  unreachable and are not given a panic outcome here.
+  Not modelled (unused by the workspace): `input_blocks`, `len64_padding_le`, `len128_padding_be`.
 -/
 import CC.Prim
 namespace CC.Buffer
